@@ -31,8 +31,10 @@ for sid in sorted(os.listdir(os.path.join(ROOT, "seeded"))):
             except Exception:
                 pass
         det.append({"check": p, "tier": "quick", "outcome": how, "first_report": what[:160]})
-    m["detected_by"] = det
-    json.dump(m, open(mp, "w"), indent=1)
+    if det:          # ids absent from these result files keep what an earlier sweep recorded
+        m["detected_by"] = det
+        json.dump(m, open(mp, "w"), indent=1)
+    det = m.get("detected_by") or []
     d = det[0] if det else {"check": "-", "outcome": "not run", "first_report": ""}
     rows.append(f"| {sid} | {m['change'][:95]} | {d['check']} | {d['outcome']} | `{d['first_report'][:70]}` |")
 print("| Id | Change | Check | Outcome | First report (family: oracle verdict) |")
